@@ -259,8 +259,12 @@ private:
   std::atomic<unsigned int> masterVersion;
   Indexer indexer;
 
-  bool updateLocal(ThreadData& p) {
+  bool updateLocal(ThreadData& p, bool haveMasterLock = false) {
     if (p.lastMasterVersion != masterVersion.load(std::memory_order_relaxed)) {
+      // The log is only read under its lock: a concurrent push_back may
+      // reallocate the deque's map of blocks while operator[] walks it.
+      if (!haveMasterLock)
+        masterLock.lock();
       for (;
            p.lastMasterVersion < masterVersion.load(std::memory_order_relaxed);
            ++p.lastMasterVersion) {
@@ -274,6 +278,8 @@ private:
         assert(logEntry.second);
 #endif
       }
+      if (!haveMasterLock)
+        masterLock.unlock();
       return true;
     }
     return false;
@@ -326,7 +332,7 @@ private:
         return it->second;
     } while (!masterLock.try_lock());
     // we have the write lock, update again then create
-    updateLocal(p);
+    updateLocal(p, true);
     auto it = p.local.find(i);
     CTy* C2 = (it != p.local.end()) ? it->second : nullptr;
     if (!C2) {
